@@ -167,14 +167,23 @@ def run(ctx):
         try:
             data = impl.save(entries, common)
         except Exception as e:
-            bad.append(dict(full, stream="a", what="save raised %s: %s" % (type(e).__name__, e)))
+            bad.append(dict(full, stream="a", form=impl.last_form, what="save raised %s: %s [input form: %s]" % (type(e).__name__, e, c10.describe_form(impl.last_form))))
             data = None
+        full["form"] = impl.last_form
         if data is not None:
             want = c10.enc(entries, common, c10.narrowest(c10.max_word(entries, common)), 4)
             if data != want:
                 at = next((i for i, (x, y) in enumerate(zip(data, want)) if x != y), min(len(data), len(want)))
-                bad.append(dict(full, stream="a", what="bytes written differ from the documented layout (first difference at byte %d of %d; row-id array lengths in dict order %r)"
-                                % (at, len(want), [len(v) for _, v in entries][:12]), observed=data.hex()[:6000], expected=want.hex()[:6000]))
+                plain_same = None
+                if len(bad) < 200:
+                    try:
+                        plain_same = impl.save(entries, common, form=dict(c10.PLAIN_FORM)) == want
+                    except Exception:  # noqa
+                        plain_same = False
+                bad.append(dict(full, stream="a", what="bytes written differ from the documented layout (first difference at byte %d of %d; row-id array lengths in dict order %r) "
+                                "[input form: %s%s]" % (at, len(want), [len(v) for _, v in entries][:12], c10.describe_form(full["form"]),
+                                                        "" if plain_same is None else "; the same content in the ordinary form is written " + ("correctly" if plain_same else "wrongly too")),
+                                observed=data.hex()[:6000], expected=want.hex()[:6000]))
             else:
                 try:
                     d = c10.dec(data)
@@ -285,6 +294,7 @@ def run(ctx):
     rc = core.run_cases("c11c", c10.PRELUDE, lits_c, "list (list Z) * Z * list Z * list Z * bool", "chk_c11_header", "explain_c11_header", shard_size=400)
     ctx.evaluations = len(lits_a) + n_scale_files[0] + n_width_files + len(lits_r) + len(lits_c)
     ctx.samples = recs_a[:2] + recs_b[:1] + recs_r[:1] + recs_c[:2]
+    impl.record_forms()
     ctx.coverage.update({
         "files_saved_for_real": len(lits_a), "independent_files_loaded_for_real": n_width_files, "width_pairs_iw/rw": dict(sorted(width_hist.items())),
         "beyond_rowid_word_range_files": [{"rw": r["rw"], "total_rowids": r["total_rowids"]} for r in recs_r],
@@ -340,7 +350,7 @@ def replay(ctx, path):
         if s == "a":
             entries = [(tuple(k), list(v)) for k, v in c["entries"]]
             try:
-                data = impl.save(entries, c["common"])
+                data = impl.save(entries, c["common"], form=c.get("form") or dict(c10.PLAIN_FORM))
                 want = c10.enc(entries, c["common"], c10.narrowest(c10.max_word(entries, c["common"])), 4)
                 why = None if data == want else "bytes written differ from the documented layout"
             except Exception as e:
